@@ -11,6 +11,8 @@
 (***************************************************************************)
 EXTENDS SoPlexAPI, Json, IOUtils, SequencesExt
 BF == INSTANCE BasisFile
+\* the control logic of one floating-point optimize() call (hook H1 records its events in the field "frames")
+SD == INSTANCE SolveDriver WITH MaxDepth <- 3, Design <- "fixed"
 
 Tr == ndJsonDeserialize(IOEnv.TRACE)
 
@@ -230,7 +232,8 @@ TVOptimize ==
                       d |-> IF Ev.detKey = "" \/ dk \in DOMAIN memo.d THEN memo.d ELSE memo.d @@ (dk :> r)]
           s1 == [s EXCEPT !.status = r.status, !.hasSol = r.hasSol, !.hasBasis = r.hasBasis,
                           !.brow = IF r.hasBasis THEN r.brow ELSE <<>>, !.bcol = IF r.hasBasis THEN r.bcol ELSE <<>>]
-      IN Step(base \cup mfails \cup dfails \cup ProjFails(s1, st) \cup OthersFails(Ev.o)
+          driver == IF "frames" \in DOMAIN Ev THEN { "Driver:" \o n : n \in SD!Accepts(Ev.frames) } ELSE {}
+      IN Step(base \cup mfails \cup dfails \cup driver \cup ProjFails(s1, st) \cup OthersFails(Ev.o)
               \cup Fail("Completeness", Ev.complete /\ t.known /\ t.v = "OPT" => r.status = ST_OPTIMAL),
               Ev.o, s1, newmemo, KeepT(Ev.o))
 
